@@ -228,12 +228,26 @@ def run_line(inp):
             inp["conns"] = list(simdev.CTX.conns)
         w = io.BytesIO()
         shutdown, outer = False, ""
+        log_handler = None
+        if inp.get("log_handler"):
+            # as in production (logging.cfg): a handler that formats every record down to DEBUG
+            log_handler = logging.StreamHandler(io.StringIO())
+            log_handler.setLevel(logging.DEBUG)
+            logging.getLogger().addHandler(log_handler)
+            saved_level = logging.getLogger().level
+            logging.getLogger().setLevel(logging.DEBUG)
+            logging.disable(logging.NOTSET)
         try:
             _RequestHandler(proto, logging.getLogger("verif")).handle("client", io.BytesIO(raw), w)
         except (RequestHandlerError, RequestHandlerShutdown):
             shutdown = True
         except BaseException as e:      # would be logged by the TCP handler; server continues
             outer = type(e).__name__
+        finally:
+            if log_handler is not None:
+                logging.disable(logging.CRITICAL)
+                logging.getLogger().removeHandler(log_handler)
+                logging.getLogger().setLevel(saved_level)
         out_bytes = w.getvalue()
         lines = out_bytes.split(b"\n")
         if len(lines) == 2 and lines[1] == b"":
@@ -250,6 +264,16 @@ def run_line(inp):
             exc = "OUTER:" + outer
         out = {"reply": reply, "shutdown": shutdown, "events": list(simdev.CTX.events),
                "comm_issue": bool(p2._comm_issue), "exc": exc}
+        if inp.get("deep_boundary") and kind == "ok" and isinstance(reply, dict) and not shutdown \
+                and reply.get("errorcode") == -901 and not simdev.CTX.events:
+            # within reach of CPython's recursion limit, whether this nesting depth still parses (and can be
+            # handled) depends on the depth of the call stack: an input of the model, observed
+            kind, request = "notjson", None
+            if out["exc"] == "RecursionError":
+                out["exc"] = ""     # the same outcome one frame later: the server answers it as a format error
+        if inp.get("drop_member") and isinstance(request, dict):
+            # a member no command looks at, too deeply nested for the wire codec to carry to the model
+            request = {k: v for k, v in request.items() if k != inp["drop_member"]}
         keccak, cbhash = hash_tables(request, inp.get("full_coinbases"))
         minp = {"mode": inp.get("mode", "v5"), "platform": plat, "parsed": kind,
                 "script": [simdev.norm_entry(e) for e in simdev.CTX.recorded] if device is not None
